@@ -237,7 +237,7 @@ def rustc_batch(texts, workdir, name, edition="2021"):
         return [], ""
     # bisect
     bad = []
-    first_msg = out[-1500:]
+    first_msg = out[-30000:]
 
     def rec(idx):
         if not idx:
